@@ -45,7 +45,20 @@ def _case(draw):
             c["shape"] = [2]
             c["spec"] = {"t": "lu", "identity_init": False, "cache": False}
             c["ctx"] = None
-        if draw(st.integers(0, 3)) == 0:
+        pick = draw(st.integers(0, 5))
+        if pick == 1:
+            # orthogonal factors away from their unit-vector initialisation
+            c["shape"], c["ctx"] = [2], None
+            c["spec"] = draw(st.sampled_from([{"t": "qr", "nh": draw(st.integers(1, 3)), "cache": False, "seed": 0},
+                                              {"t": "svd", "nh": 2, "identity_init": draw(st.booleans()), "cache": False, "seed": 0},
+                                              {"t": "householder", "n": draw(st.integers(1, 3))}]))
+            c["init"]["regime"] = "small"
+        elif pick == 2:
+            # two-pixel images (H != W, or two channels): per-pixel / per-channel log-dets must add up
+            c["shape"], c["ctx"], c["dom"] = draw(st.sampled_from([[1, 1, 2], [1, 2, 1], [2, 1, 1]])), None, "R"
+            c["spec"] = {"t": "composite", "parts": [{"t": "actnorm"}, {"t": "paffine", "shift": 0.3, "scale": 1.7}]}
+            c["init"]["regime"] = draw(st.sampled_from(["small", "moderate"]))
+        if pick == 0:
             # a gated linear unit whose single gate is broadcast over both features (context narrower than the data)
             c["shape"], c["ctx"] = [2], draw(st.sampled_from([1, 2]))
             c["spec"] = {"t": "composite", "parts": [{"t": "lu", "identity_init": False, "cache": False}, {"t": "glu"}]}
@@ -107,15 +120,19 @@ def run_case(case):
         torch.manual_seed(case["seed"])
         g = torch.Generator().manual_seed(case["seed"] + 1)
         b = zoo.instantiate(case)
-        if len(b.out_shape) != 1:
+        img2 = what == "mass2d" and len(b.out_shape) == 3 and int(np.prod(b.out_shape)) == 2 and case.get("ctx") is None
+        if len(b.out_shape) != 1 and not img2:
             return res
         if case["what"] != "differential" and _clamp_not_last(case["spec"]):
             res.labels.append("sigmoid_clamp_before_other_parts")
             return res
-        D, ctxk = b.out_shape[0], case.get("ctx")
+        D, ctxk = (2 if img2 else b.out_shape[0]), case.get("ctx")
+        ishape = list(b.out_shape) if img2 else None       # two-pixel images: integrated as points of R^2
         rows = case["rows"]
         ctx = torch.randn(rows, ctxk, generator=g) if ctxk is not None else None
         bk = case["base"]
+        if img2:
+            bk = "standard"
         if bk == "conditional" and ctxk is not None:
             enc = torch.nn.Linear(ctxk, 2 * D)
             with torch.no_grad():
@@ -137,7 +154,7 @@ def run_case(case):
             # aim only: the mixture of a freshly initialised MADE sits within a few units of 0
             mu, ls = np.zeros((max(1, rows), D)), np.full((max(1, rows), D), math.log(1.5))
         else:
-            base = dist.StandardNormal([D])
+            base = dist.StandardNormal(ishape if img2 else [D])
             mu, ls = np.zeros((max(1, rows), D)), np.zeros((max(1, rows), D))
         flow = Flow(b.module, base)
         flow.eval()
@@ -150,8 +167,10 @@ def run_case(case):
 
         def logp(z):
             zt = torch.tensor(np.asarray(z, dtype=np.float64).reshape(-1, D))
+            if img2:
+                zt = zt.reshape([-1] + ishape)
             evals[0] += len(zt)
-            if evals[0] > (3000000 if what == "mass2d" else 3 * 10 ** 7):
+            if evals[0] > (1200000 if what == "mass2d" else 3 * 10 ** 7):
                 raise _Budget()
             cc = c1.expand(len(zt), -1) if c1 is not None else None
             with torch.no_grad():
@@ -201,10 +220,18 @@ def run_case(case):
 
         if what == "mass1d":
             boxes = []
+            mix = None
+            if bk == "mademog" and D == 1:
+                with torch.no_grad():
+                    o_ = base._made(torch.zeros(1, 1), c1).reshape(-1, 3)
+                mix = (torch.softmax(o_[:, 0], 0).numpy(), o_[:, 1].numpy(), (torch.nn.functional.softplus(o_[:, 2]) + base._made.epsilon).numpy())
             try:
                 with torch.no_grad():
                     zlo = torch.tensor([[mu[r, 0] - 9 * math.exp(ls[r, 0])]])
                     zhi = torch.tensor([[mu[r, 0] + 9 * math.exp(ls[r, 0])]])
+                    if mix is not None:
+                        zlo = torch.tensor([[float((mix[1] - 9 * mix[2]).min())]])
+                        zhi = torch.tensor([[float((mix[1] + 9 * mix[2]).max())]])
                     xa = float(b.module.inverse(zlo, c1)[0])
                     xb = float(b.module.inverse(zhi, c1)[0])
                 if np.isfinite(xa) and np.isfinite(xb) and abs(xa) < 1e6 and abs(xb) < 1e6:
@@ -222,10 +249,28 @@ def run_case(case):
                 boxes.append((-60.0, 60.0))   # independent of the inverse: catches maps that are not onto
             masses = []
 
+
+            def base_cdf_z(y):
+                if mix is not None:
+                    return sum(w_ * norm_cdf((y - m_) / s_) for w_, m_, s_ in zip(*mix))
+                return norm_cdf((y - mu[r, 0]) / math.exp(ls[r, 0]))
+
             def base_cdf(xs):     # aim only: how much base mass lies left of T(x)
                 with torch.no_grad():
                     y = b.module(torch.tensor(xs)[:, None], c1.expand(len(xs), -1) if c1 is not None else None)[0][:, 0].numpy()
-                return norm_cdf((y - mu[r, 0]) / math.exp(ls[r, 0]))
+                return base_cdf_z(y)
+
+            # declared clamp: a final Logit / CompositeCDF cannot return values beyond logit(1 - eps) / temperature (+-13.8 at
+            # temperature 1, +-6.9 at 2): the base mass outside that range is not reachable - by the declared constant, not a defect
+            last = case["spec"]["parts"][-1] if case["spec"]["t"] == "composite" else case["spec"]
+            if last["t"] in ("logit", "compositecdf"):
+                try:
+                    lm = b.parts[-1].module if case["spec"]["t"] == "composite" else b.module
+                    sg = lm._transform if last["t"] == "logit" else lm._transforms[0]
+                    R_ = float(math.log((1 - sg.eps) / sg.eps) / float(sg.temperature))
+                    clamp_allow = clamp_allow + float(base_cdf_z(np.array([-R_]))[0]) + 1.0 - float(base_cdf_z(np.array([R_]))[0])
+                except Exception:
+                    pass
 
             def refine(xs):
                 """bisects panels across which T moves through more than 2e-3 of base mass (chains of flat and steep bins squeeze
@@ -298,7 +343,7 @@ def run_case(case):
                 with torch.no_grad():
                     corners = torch.tensor([[mu[r, 0] + sx * 9 * math.exp(ls[r, 0]), mu[r, 1] + sy * 9 * math.exp(ls[r, 1])]
                                             for sx in (-1, 0, 1) for sy in (-1, 0, 1)])
-                    xc = b.module.inverse(corners, c1.expand(9, -1) if c1 is not None else None)[0].numpy()
+                    xc = b.module.inverse(corners.reshape([9] + ishape) if img2 else corners, c1.expand(9, -1) if c1 is not None else None)[0].reshape(9, 2).numpy()
             except Exception:
                 res.inconclusive += 1
                 return res
